@@ -648,4 +648,122 @@ theorem Reach.step {s : Sess} (h : Reach s) (op : Op) (ha : op.arms = false) : R
     exact (this _ _).symm
 
 
+/-! ## Lightning calls made by a melt (C02: the fee limit is the fee reserve) -/
+
+def isPay (c : LnCall) : Bool := c.kind == "SendPayment" || c.kind == "PayPartialAmount"
+
+/-- Payment attempts recorded in a Lightning state. -/
+def payCalls (ln : LN) : List LnCall := ln.calls.filter isPay
+
+theorem isPay_send (h : Int) (m f : UInt64) (a : String) : isPay ⟨"SendPayment", h, m, f, a⟩ = true := by simp [isPay]
+theorem isPay_partial (h : Int) (m f : UInt64) (a : String) : isPay ⟨"PayPartialAmount", h, m, f, a⟩ = true := by simp [isPay]
+theorem isPay_status (h : Int) (m f : UInt64) (a : String) : isPay ⟨"OutgoingPaymentStatus", h, m, f, a⟩ = false := by simp [isPay]
+
+theorem payCalls_lnPop (ln : LN) (c : LnAns → LnCall) : payCalls (lnPop ln c) = payCalls ln ++ (if isPay (c (popScript ln).2) then [c (popScript ln).2] else []) := by
+  obtain ⟨inv, script, f1, f2, fp, calls⟩ := ln
+  cases script <;> simp [payCalls, lnPop, record, popScript, List.filter_append, List.filter_cons] <;> rfl
+
+theorem payCalls_invStatus (ln : LN) (h : Nat) : payCalls (lnInvStatus ln h).1 = payCalls ln := by
+  unfold lnInvStatus
+  simp only [execLn]
+  repeat' split
+  all_goals simp [payCalls, record, List.filter_append, isPay, Option.getD]
+
+theorem meltAfterPay_pay (q : MeltQ) (ps : List Proof) (a0 : LnAns) (s : DL) :
+    payCalls (runM (meltAfterPay q ps a0) s).1.2 = payCalls s.2 := by
+  obtain ⟨db, ln⟩ := s
+  have hst : payCalls (lnPop ln fun a => ⟨"OutgoingPaymentStatus", q.hash, 0, 0, a.str⟩) = payCalls ln := by
+    rw [payCalls_lnPop, isPay_status]; simp
+  cases a0 <;> simp only [meltAfterPay]
+  case succ =>
+    prog_simp [runM_settleProofs_bind]
+    repeat' split
+    all_goals rfl
+  case pending => rfl
+  all_goals
+    prog_simp [runM_pure]
+    cases (popScript ln).2
+    all_goals
+      simp only []
+      first
+        | exact hst
+        | (prog_simp [runM_settleProofs_bind]
+           repeat' split
+           all_goals exact hst)
+
+theorem meltInternal_pay (q : MeltQ) (ps : List Proof) (mq : MintQ) (s : DL) :
+    payCalls (runM (meltInternal q ps mq) s).1.2 = payCalls s.2 := by
+  obtain ⟨db, ln⟩ := s
+  simp only [meltInternal]
+  prog_simp [runM_pure]
+  cases (lnInvStatus ln mq.hash).2 with
+  | none =>
+    simp only []
+    prog_simp [runM_pure]
+    repeat' split
+    all_goals exact payCalls_invStatus ln mq.hash
+  | some b =>
+    simp only []
+    prog_simp [runM_pure]
+    repeat' split
+    all_goals exact payCalls_invStatus ln mq.hash
+
+/-- The payment attempt of a melt: at most one, for the quote's invoice, with the quote's msat amount, and with the
+    quote's FEE RESERVE as the fee limit (F1). -/
+theorem melt_payCalls (cx : Cx) (qid : Int) (ps : List Proof) (s s' : DL) (r : Except E MeltQ)
+    (h : runM (meltTokens cx qid ps) s = (s', r)) :
+    payCalls s'.2 = payCalls s.2 ∨
+    ∃ q c, dbGetMeltQ s.1 qid = .ok q ∧ payCalls s'.2 = payCalls s.2 ++ [c] ∧ c.maxFee = q.feeReserve ∧
+      c.hash = (q.inv : Int) ∧
+      c.msat = (if q.isMpp then (if q.amountMsat == 0 then invMsat s.2 q.inv else q.amountMsat) else invMsat s.2 q.inv) := by
+  obtain ⟨db, ln⟩ := s
+  prog_simp [meltTokens] at h
+  cases hq : dbGetMeltQ db qid with
+  | error e => simp only [hq] at h; left; cases h; rfl
+  | ok q =>
+    simp only [hq] at h
+    prog_simp [runM_verifyProofs_bind] at h
+    split at h; · left; cases h; rfl
+    split at h; · left; cases h; rfl
+    split at h
+    rotate_left; · left; cases h; rfl
+    split at h; · left; cases h; rfl
+    split at h; · left; cases h; rfl
+    split at h
+    rotate_left; · left; cases h; rfl
+    split at h
+    rotate_left; · left; cases h; rfl
+    cases hmq : dbGetMintQByHash db q.hash with
+    | ok mq =>
+      left
+      simp only [dbGetMintQByHash_upd, hmq] at h
+      have key : ∀ (S : DL), runM (meltInternal { q with state := .pending } ps mq) S = (s', r) → payCalls s'.2 = payCalls S.2 :=
+        fun S hS => by have := meltInternal_pay { q with state := .pending } ps mq S; rw [hS] at this; exact this
+      have h2 := key _ h
+      exact h2
+    | error e =>
+      right
+      simp only [dbGetMintQByHash_upd, hmq] at h
+      split at h
+      · rename_i hmpp
+        prog_simp [runM_pure] at h
+        have key : ∀ (S : DL), runM (meltAfterPay { q with state := .pending } ps (popScript ln).2) S = (s', r) →
+            payCalls s'.2 = payCalls S.2 :=
+          fun S hS => by have := meltAfterPay_pay { q with state := .pending } ps (popScript ln).2 S; rw [hS] at this; exact this
+        have := key _ h
+        refine ⟨q, ⟨"PayPartialAmount", q.inv, if q.amountMsat == 0 then invMsat ln q.inv else q.amountMsat, q.feeReserve, (popScript ln).2.str⟩,
+          rfl, ?_, rfl, rfl, ?_⟩
+        · rw [this, payCalls_lnPop, isPay_partial]; rfl
+        · simp [hmpp]
+      · rename_i hmpp
+        prog_simp [runM_pure] at h
+        have key : ∀ (S : DL), runM (meltAfterPay { q with state := .pending } ps (popScript ln).2) S = (s', r) →
+            payCalls s'.2 = payCalls S.2 :=
+          fun S hS => by have := meltAfterPay_pay { q with state := .pending } ps (popScript ln).2 S; rw [hS] at this; exact this
+        have := key _ h
+        refine ⟨q, ⟨"SendPayment", q.inv, invMsat ln q.inv, q.feeReserve, (popScript ln).2.str⟩, rfl, ?_, rfl, rfl, ?_⟩
+        · rw [this, payCalls_lnPop, isPay_send]; rfl
+        · simp [hmpp]
+
+
 end Gonuts.Model.Mint
